@@ -505,13 +505,13 @@ def lowered(expr, w):
 
 
 # ------------------------------------------------------------------------------------------------ one case
-def subst_g(g, posmap, kwmap, declared):
+def subst_g(g, posmap, kwmap, declared, home=None):
     """simultaneous substitution on generator trees (the independent reference for `direct`): a plain reference to a
     declared argument takes its positional value; any other function / constant whose name is a keyword takes the
     keyword's value; what is inserted is not looked at again"""
     k = g["k"]
     if k == "fun":
-        plain = "s" not in g
+        plain = "s" not in g or (home is not None and home(g["n"]) == g["s"])
         if plain and g["n"] in posmap:
             return posmap[g["n"]]
         if g["n"] in kwmap and not (plain and g["n"] in declared):
@@ -521,11 +521,11 @@ def subst_g(g, posmap, kwmap, declared):
         return kwmap.get(g["n"], g)
     out = dict(g)
     if "a" in g:
-        out["a"] = [subst_g(x, posmap, kwmap, declared) for x in g["a"]]
+        out["a"] = [subst_g(x, posmap, kwmap, declared, home) for x in g["a"]]
     if "b" in g:
-        out["b"] = subst_g(g["b"], posmap, kwmap, declared)
+        out["b"] = subst_g(g["b"], posmap, kwmap, declared, home)
     if "of" in g:
-        out["of"] = subst_g(g["of"], posmap, kwmap, declared)
+        out["of"] = subst_g(g["of"], posmap, kwmap, declared, home)
     return out
 
 
@@ -842,7 +842,8 @@ def run_case(case):
             try:
                 pm, km = direct_maps(call["direct"])
                 names = set(case["trials"] + case["tests"])
-                ints = [{"region": it["region"], "e": subst_g(it["e"], pm, km, names)} for it in case["integrals"]]
+                home = lambda n: w.sid_of(n) if (n in w.vec or n in w.home) else None
+                ints = [{"region": it["region"], "e": subst_g(it["e"], pm, km, names, home)} for it in case["integrals"]]
                 e2 = build_expr(w, ints)
                 out["direct_body"] = ser_body(e2)
             except Unsupported as e:
